@@ -512,10 +512,10 @@ fn hqr2<T: RealNumber, M: BaseMatrix<T>>(A: &mut M, V: &mut M, d: &mut [T], e: &
                         nn -= 2;
                     }
                 } else {
-                    if its == 30 {
+                    if its == 300 {
                         panic!("Too many iterations in hqr");
                     }
-                    if its == 10 || its == 20 {
+                    if its > 0 && its % 10 == 0 {
                         t += x;
                         for i in 0..nn + 1 {
                             A.sub_element_mut(i, i, x);
